@@ -11,6 +11,7 @@
 mod ops;
 mod ops2;
 mod ops3;
+mod conc;
 mod place;
 mod util;
 
@@ -62,6 +63,16 @@ pub mod alloc_probe {
     }
 }
 
+/// `verif::reset()`, then switch the load/strategy recorder off when VERIF_NOTRACE is set
+/// (the recorder allocates; allocation-probe runs must not see that).
+pub fn vreset() {
+    memchr::verif::reset();
+    static NOTRACE: std::sync::OnceLock<bool> = std::sync::OnceLock::new();
+    if *NOTRACE.get_or_init(|| std::env::var_os("VERIF_NOTRACE").is_some()) {
+        memchr::verif::set_trace(false);
+    }
+}
+
 #[global_allocator]
 static GLOBAL: alloc_probe::Counting = alloc_probe::Counting;
 
@@ -71,6 +82,10 @@ fn main() {
         ops::conc_child(&args[2..]);
         return;
     }
+    // Read the hook's MEMCHR_VERIF_FORCE setting now (it allocates a String once), so that it
+    // is not attributed to the first dispatched call of an op.
+    let _ = memchr::verif::forced_unavailable(memchr::verif::Isa::Avx2);
+    vreset();
     // Panics are results, not noise.
     std::panic::set_hook(Box::new(|_| {}));
     let stdin = std::io::stdin();
